@@ -493,7 +493,7 @@ Section Seq.
     assert (Hfr : rframe g g1 r chain).
     { eapply rframe_trans; [|exact J9]. unfold g0. apply rframe_cur; exact Ir. }
     destruct (rframe_rec_fields _ _ _ _ Hfr) as (_&_&_&_&_&_&_&_&_&Etl&_). cbn in Etl.
-    exists w'. split; [exact J1|]. split; [exact J2|]. split; [rewrite <- J5; apply rev_involutive|].
+    exists w'. split; [exact J1|]. split; [exact J2|]. split; [exact J5|].
     rewrite rev_length.
     assert (Hlen : List.length racc = fcnt).
     { rewrite J6. rewrite <- (rev_length racc), J5. reflexivity. }
